@@ -404,7 +404,10 @@ class C16(PropBase):
         "the single-lookup theorems take race = None; concurrent clients are covered by the c16_shared_* theorems, in which every client runs THIS code (same operation programs) "
         "and each file-system operation is atomic; a foreign writer with other code, and a crash of the whole process (no RAII cleanup), are not modelled",
         "c16_shared_*: hypotheses m_cache f = c0 (whatever is at the path initially) and an initially empty tmp directory; clients use the cache path of one module",
-        "locate_file (fetch_lookup: binaries, extra debug info), the code-info redirect lookup and inputs with 60-170 KB lines are judged by the oracle only (the model answers '?'); fetch_cab_lookup (feature mozilla_cab_symbols) is not covered",
+        "c16_file_*: the machine of C16/FileFetch.v (fetch_lookup / locate_file: binaries, extra debug info), hand-written, compared with the real locate_file on the kB / kD cases; "
+        "its statement list is pinned by translate/c16_fsops.py (c16_file_steps_are_source); persist_noclobber is ONE atomic step that fails when anything is at the path; "
+        "a file written by another process during the download is judged by the oracle only",
+        "the code-info redirect lookup and inputs with 60-170 KB lines are judged by the oracle only (the model answers '?'); fetch_cab_lookup (feature mozilla_cab_symbols) is not covered",
     ]
     manifest = {
         "text": "partial: Theorems (Coq, every event list incl. a dropped future at ANY position, every initial file system, every outcome of the "
@@ -436,6 +439,9 @@ class C16(PropBase):
                 "so for every redirect target the entry's note is the URL the lookup reported), c16_stream_loop_is_source, c16_stream_download_then_cache_hit "
                 "(C09/C10 recogniser: streamed download under any chunking, then the whole-file parse of the entry: same table, URL of the note), c16_stale_flag_refuted "
                 "(the loop with a `consumed == 0` fast path before the bookkeeping returns Ok after 15 of 23 bytes). "
+                "Binaries / extra debug info (second pass; fetch_lookup / locate_file, C16/FileFetch.v; every event list, EDrop anywhere): c16_file_entry_only_from_whole_body (a file appears in the cache only "
+                "at the path, only where nothing was, only after a non-error head and the clean end of the body, and is EXACTLY those bytes), c16_file_no_stray_tmp, c16_file_failed_leaves_cache, "
+                "c16_file_existing_never_replaced, c16_file_steps_are_source (statement list of fn fetch_lookup as translated = the list the transitions were written for); compared with the real locate_file on the kB/kD cases. "
                 "In-process concurrency (second pass): c16_process_is_one_lookup -- C12's model of the Symbolizer's per-module slot (every task set, every executor schedule; "
                 "C12.Proofs.at_most_once) composed with [locate]: whatever runs concurrently in ONE process, the servers and the cache directory see for one module what ONE lookup does "
                 "(request log = a prefix of the server list), so the single-lookup theorems hold for the process; compared with the real Symbolizer + HttpSymbolSupplier on kS<n> cases "
@@ -979,7 +985,11 @@ class C16(PropBase):
     # ------------------------------------------------------------------ canonical forms
     def canon_block(self, c, name, b):
         r = b.get("r", "?")
-        if r.startswith("OK:"):
+        if c.kind is not None:
+            # locate_file: the answer is a path -- under a local directory (OK:L) or the cache path (OK:C; the oracle checks which)
+            if r.startswith("OK:"):
+                r = "OK:L" if r.startswith("OK:L") else "OK:C"
+        elif r.startswith("OK:"):
             r = ":".join(r.split(":")[:4])
         parts = ["r=" + r]
         if "q" in b:
@@ -992,6 +1002,8 @@ class C16(PropBase):
             ents = cc.split(",")
             if len(ents) == 1 and c.rel is not None and unhx(ents[0].split(":")[0]).decode("utf-8", "replace") == c.rel:
                 cc = ":".join(ents[0].split(":")[1:])
+            elif len(ents) == 1 and c.kind is not None:
+                cc = ":".join(ents[0].split(":")[1:])        # the path of a binary's entry is judged by oracle_file
         parts.append("c=" + cc)
         parts.append("t=" + b.get("t", "?"))
         if name in "AB":
